@@ -35,6 +35,18 @@ def pool_batch(acc, batch, prop=None, bound=1):
             acc.samples.append(dict(scenario=json.loads(json.dumps(sc, default=str)), executions=stats["executions"], distinct_outcomes=len(outcomes)))
 
 
+def real_trace_batch(acc, batch, prop=None):
+    from mc import realtier
+
+    realtier.trace_batch(acc, batch, prop=prop)
+
+
+def real_kill_batch(acc, batch, prop=None):
+    from mc import realtier
+
+    realtier.kill_batch(acc, batch, prop=prop)
+
+
 def run_pool(ctx, module, prop):
     quick = ctx.tier == "quick"
     if quick:
@@ -52,7 +64,39 @@ def run_pool(ctx, module, prop):
     ctx.pmap(module, "pool_batch", small, chunk=2, prop=prop, bound=bound)
     if big:
         ctx.pmap(module, "pool_batch", big, chunk=2, prop=prop, bound=1)
-    ctx.traces_validated = ctx.acc.extra["executions"]
+    # ---- real-loop / real-process tier: bind the fake processes and the virtual clock back to reality
+    from mc import realtier
+
+    real_scs = [s for s in scs if s.get("via") == "api" and len(s["tasks"]) <= (2 if quick else 3) and not any(k in s for k in ("start_fail", "log_fail", "payloads", "kill_race"))
+                and not any(t.get("extra_deps") for t in s["tasks"]) and all(c >= 0 for t in s["tasks"] for c in t.get("codes", (0,)) if c != -11)]
+    real_scs = real_scs[:: max(1, len(real_scs) // (10 if quick else 60))]
+    items = []
+    for sc in real_scs:
+        sc2 = dict(sc, tasks=[dict(t, codes=tuple(c for c in t.get("codes", (0,)) if c >= 0) or (0,)) for t in sc["tasks"]])
+        found = []
+
+        def on_exec(ex, points, found=found):
+            if len(found) < (2 if quick else 4):
+                key = tuple(ex.state_name(i) for i in range(ex.n))
+                if key not in [f[0] for f in found]:
+                    found.append((key, [p[1] for p in points]))
+
+        import tempfile
+        import shutil
+
+        d = tempfile.mkdtemp(dir="/dev/shm", prefix="gwf-mc-realsel-")
+        try:
+            from mc import poolx
+
+            poolx.explore(sc2, d, 0, dict(executions=0, choice_points=0, pruned=0, transitions=0, states=set()), on_exec)
+        finally:
+            shutil.rmtree(d, ignore_errors=True)
+        items += [(sc2, ch) for _k, ch in found]
+    ctx.pmap(module, "real_trace_batch", items, chunk=1, prop=prop)
+    if prop == "C13":
+        ctx.pmap(module, "real_kill_batch", [(k, how, n) for n, (k, how) in enumerate((k, h) for k in realtier.KILL_SCRIPTS for h in ("cancel", "timeout"))], chunk=1, prop=prop)
+    ctx.traces_validated = ctx.acc.extra["traces_validated"]
+    ctx.notes.setdefault("coverage_extra", {})["real_process_traces_replayed"] = len(items)
     ctx.rule = ("scenario = (cores, task DAG with deps on earlier tasks, time limit on task 0, exit-code alphabets, op script with cancels at every position, api/server, "
                 "start/log failures, payloads); every execution with <= D deviations is run on the real Scheduler/Server; non-trivial = distinct scenario")
     ctx.bound = dict(scenarios=len(scs), tasks_max=max(len(s["tasks"]) for s in scs), deviations=bound, cancels=1 if quick else 2, cores=[1, 2] if quick else [1, 2, 3])
@@ -65,6 +109,21 @@ def run_pool(ctx, module, prop):
 
 def replay_pool(case, prop):
     from mc.runner import Acc, worker_scratch
+
+    if case.get("kind") == "real-kill":
+        from mc import realtier
+
+        acc = Acc()
+        realtier.kill_batch(acc, [(case["script"], case["how"], case["n"])])
+        return acc.violations
+    if case.get("kind") == "real-trace":
+        from mc import realtier
+
+        acc = Acc()
+        sc = case["sc"]
+        sc = dict(sc, ops=[tuple(o) for o in sc["ops"]], tasks=[dict(t, codes=tuple(t.get("codes", (0,)))) for t in sc["tasks"]])
+        realtier.trace_batch(acc, [(sc, list(case["choices"]))])
+        return acc.violations
 
     sc = case["sc"]
     sc = dict(sc, ops=[tuple(o) for o in sc["ops"]], tasks=[dict(t, codes=tuple(t.get("codes", (0,))), extra_deps=tuple(t.get("extra_deps", ()))) if True else t for t in sc["tasks"]])
